@@ -141,7 +141,7 @@ PROPS["C07"] = {
 }
 PROPS["C08"] = {
     "lean_module": "LispModel.Props.C08",
-    "engines": [{"name": "tail", "quick": 1200, "thorough": 20000},
+    "engines": [{"name": "tail", "quick": 1200, "thorough": 5000},
                 {"name": "tailconc", "quick": 1, "thorough": 1, "deterministic": True},
                 {"name": "afterdebug", "quick": 1, "thorough": 1, "deterministic": True},
                 {"name": "taillong", "quick": 1, "thorough": 1, "deterministic": True}],
